@@ -41,6 +41,10 @@ APPENDIX = [
     "{% liquid\n# c\n# d %}", "{% liquid\ncomment\n a\nendcomment\n echo 1 %}",
     "{% liquid\n comment\n a\n endcomment\n echo 1 %}", "{% liquid\ncomment\ncomment\nendcomment\nendcomment\necho 1 %}",
     "{% liquid comment endcomment %}", "{% liquid\ncomment\n# x\nendcomment x y\n%}", "{% liquid\ncomment %}",
+    "{% liquid\ncomment\n\tc x\n\tendcomment\n echo 'a'\n%}", "{% liquid\n  comment\n    indented text\n\n  \t\n    # c\n  endcomment\n%}",
+    "{% liquid comment\n  comment\n   x\n  endcomment\n endcomment\n echo 1 %}", "{% liquid\ncomment\n\n\nendcomment %}",
+    "{% liquid\ncomment\r\n\t a\r\n  endcomment\r\n%}", "{% liquid\ncomment\n   %}", "{% liquid\ncomment\n  X\n endcomment %}",
+    "{% liquid\ncomment\n  {{ x }}\n endcomment %}", "{% liquid\ncomment\n  endcomment -%}b", "{% liquid\ncomment\n \u00a0 x\n endcomment %}",
     "{% liquid\nX %}", "{% liquid\nifX %}", "{% liquid\nif\u00e9 %}", "{% liquid\necho 1\r\necho 2\r\n%}",
     "{% liquid\necho @ %}", "{% liquid\necho", "{% liquid\n\n\n%}", "{% liquid echo 1 }}",
     "{% comment %}", "{% comment %}x", "{% comment %}x{% endcomment %}y", "a{% comment %}x{% endcomment %}b{{ y }}",
@@ -243,9 +247,12 @@ def g_liquid(r: random.Random) -> str:
         elif k < 0.65:
             lines.append(ind + "#" + r.choice(["", " c", " c %", "# d", " {{ x }}", " \u00e9", " -"]))
         elif k < 0.8:
-            inner = "".join(r.choice(["a b\n", "# x\n", "comment\n", "endcomment\n", " a\n", "echo 1\n", "\n", "X\n", "if\u00e9\n"])
-                            for _ in range(r.randint(0, 3)))
-            lines.append(ind + "comment" + r.choice(["\n", " x\n", "\r\n", " "]) + inner + r.choice(["endcomment", "endcomment x", " endcomment", ""]))
+            inner = "".join(r.choice(["", "", " ", "  ", "\t", "\n", " \n  "]) +
+                            r.choice(["a b\n", "# x\n", "comment\n", "endcomment\n", "a\n", "echo 1\n", "\n", "X\n", "if\u00e9\n",
+                                      "comment\n  y\n  endcomment\n", "\t\n"])
+                            for _ in range(r.randint(0, 4)))
+            lines.append(ind + "comment" + r.choice(["\n", " x\n", "\r\n", " "]) + inner +
+                         r.choice(["endcomment", "endcomment x", " endcomment", "\tendcomment", "   endcomment -", ""]))
         elif k < 0.9:
             lines.append(ind + r.choice(["X", "1", "if\u00e9", "echo 'a\nb'", "echo @", "", "{{ x }}"]))
         else:
